@@ -121,7 +121,7 @@ fn c14(args: &Args) -> i32 {
         check_name: "C14",
         level: "exploration",
         engine: "STORE",
-        rule: "histories of every LpgStore mutator (create/delete node and edge incl. self-loops and parallel edges, set/remove property of every value class, add/remove label, create/drop index, statistics refresh, zone-map rebuild) drawn from the run seed with per-run operation-kind subsets, with and without backward adjacency; hub runs push one adjacency list past 64/128/320 entries; a case is non-trivial when it executed >=3 steps and left a non-empty graph; distinct = distinct operation lists".into(),
+        rule: "histories of every LpgStore mutator (create/delete node and edge incl. self-loops and parallel edges, set/remove property of every value class, add/remove label, create/drop index, statistics refresh, zone-map rebuild) drawn from the run seed; after every step every accessor is compared with the reference graph (enumeration, counts, point lookups, single and batch property getters for nodes and edges, label index and label iterator, typed edge iterator, adjacency in both directions, degrees, indexed/scanned/conjunctive/range lookups, zone-map pruning, name dictionaries, statistics) with per-run operation-kind subsets, with and without backward adjacency; hub runs push one adjacency list past 64/128/320 entries; a case is non-trivial when it executed >=3 steps and left a non-empty graph; distinct = distinct operation lists".into(),
         real: vec!["grafeo_core::graph::lpg::LpgStore", "PropertyStorage", "ChunkedAdjacency", "zone maps", "grafeo_common::mvcc::VersionChain", "statistics"],
         stub: vec![],
         assumptions: vec![
